@@ -35,6 +35,24 @@ TABLE = {
   "C20": ("Lean 4 theorems over an exact model of JSON-Schema keyword semantics plus the process_error decision table; differential runs against validate and jsonschema",
           "Proved for all JSON values and schemas over the translated keywords plus const/multipleOf/uniqueItems/not: silent iff conforms; every reportable error is a genuinely failing keyword; translation total into the five library classes; message never empty; required/additionalProperties/type errors expose key, value and type; oneOf/anyOf descent terminates. Tied by exact comparison silent<->conforms and membership of (class, exposed attributes) in the model's admissible set.",
           "Not modelled: which simultaneous error best_match picks (membership), invalid_key for non-identifier keys, message text, regexes outside a four-pattern family, float multipleOf, $ref/boolean/malformed schemas. Known findings F9, F11 (third-party) are printed, not alarms.", "3/C20"),
+  "C01": ("Lean 4 theorems about the finalisation pipeline shared by all next-points endpoints (composition of the C09 decode/snap theorems with arbitrary de-dup masks, neighbour picks and refill rows) + endpoint runs whose outputs and recorded stage inputs are decided by the compiled Lean membership oracle",
+          "Proved for every oracle outcome (neighbour pick, shuffles, random neighbour choices, categorical draws, both de-dup masks): relaxed in-polytope inputs with in-polytope neighbour candidates and admissible refill rows finalise to admissible configurations; count <= batch + refill and = batch when the refill supplies what is asked and no int constraint exists; task column drawn from the options; softmax weights positive, sum to 1, antitone in cost. Tied by running all five next-points endpoints on generated requests: every returned point decided by Lean `admissible` on exact rationals, count/task rules, and the theorem's hypotheses re-validated on the recorded decode inputs.",
+          "Hypotheses (optimizer outputs in the relaxed polytope: C07+C08; neighbour candidates stay in it: C09 lattice theorems; refill admissible: C10/C08) are validated per run, not composed in Lean across the three domain models. Distribution of task draws: labelled chi-square test. Double constraints compared with 1e-9*scale slack.", "3/C01"),
+  "C05": ("Lean 4 theorems over an Arith-polymorphic model of EI / AEI / EI x PF / multitask / logistic, CDF and product success models / batched evaluation / incumbents, Phi a function parameter instantiated by Mathlib's Gaussian; Float instance compared with the public entry points",
+          "Proved for all posteriors, incumbents, thresholds, noise levels, costs, model lists, batch sizes: EI >= 0 and closed form, EI = E[max(best-Y,0)] under N(mu,v) (Mathlib Gaussian), AEI penalty in [0,1], EI with failures = EI x probability, multitask = value/cost, logistic probability in (0,1) antitone in the mean, CDF probability in [0,1] antitone, product law, chunked evaluation = pointwise for every batch size, incumbent rules.",
+          "Not modelled: IEEE rounding; GP mean/variance are inputs (C02); Monte-Carlo qEI vs exact is a labelled statistical test (thorough tier); ppf(0.75), sqrt(2 pi), Phi values are oracle parameters from scipy.", "3/C05"),
+  "C07": ("Lean 4 theorems over an abstract exact model of the optimizer bookkeeping (candidate batches, restriction and scipy outcomes are oracles) + trace acceptance of recorded DE/Adam/Multistart runs by the compiled Lean checker",
+          "Proved for all point/value types, deterministic acquisition functions, restrictions, starts, candidate sequences, loop parameters and scipy outcomes: best-seen bookkeeping = first arg-max of everything evaluated; every evaluated batch is an image of restrict; best >= value at every restricted start and reproducible; DE never replaces a member by a worse one along the whole population chain; the multistart loop equals the declarative selection law (fallback and break rule) and is in the domain if the first start is.",
+          "Not modelled: restriction itself (C08), IEEE rounding (1e-9 slack on constraint rows), Adam moment arithmetic and SLSQP/L-BFGS-B internals (sampled tests only; SLSQP end points within 10*ftol of a face accepted; Adam epsilon must be > 0). Known finding F15 is printed, not an alarm.", "3/C07"),
+  "C08": ("Lean 4 theorems over an exact Rat model of clip + segment restriction, viable-point rule, hit-and-run, unit-cube affine map, LHS strata, rejection, grid, fixed coordinates and Chebyshev/dual certificates; exact-rational membership oracle plus refinement correspondence",
+          "Proved for all dimensions, boxes, constraint sets (>= 2 non-zero weights), points, viable points, flags and RNG/LP oracle values: restricted points lie in the box and satisfy every constraint; feasible points unchanged; fixed coordinates kept; every hit-and-run chain stays feasible; affine map in [lo,hi]; LHS one point per stratum with every permutation realisable; rejection and padding outputs feasible; grid in box; Chebyshev certificate => ball inside; dual certificate => maximal; flag rule.",
+          "Not modelled: IEEE rounding (1e-9 relative slack on constraint rows, 8 ulp on bounds); HiGHS and qmcpy are parameters (contracts checked per run; dual certificate from the checker's own LP solve); independence of LHS permutations is a statistical test.", "3/C08"),
+  "C10": ("Lean 4 theorems over an exact Rat/Nat model of the distinct sampler, de-duplication and plain/prior sampling (RNG as oracle) + refinement correspondence: the driver decides 'some oracle produces this output', proved sound and complete against the model",
+          "Proved for all discrete domains, histories, k, dupProb and draws: mixed-radix bijection; on the enumerating branch min(k, N - distinct in-domain history) fresh distinct admissible points independent of repeats and out-of-domain rows; exact kept/dropped law of both masks; replace keeps non-duplicates and the batch size when enough unobserved configurations exist; support and admissibility of plain sampling; prior path rule and truncation arguments.",
+          "Not modelled: distributions (KS/coverage are labelled tests), IEEE rounding of cdist (1e-9 band), constrained sampler (C08), the N >= 100000 branch beyond length/admissibility. Known finding F6 (designed sampling-with-replacement shortcut) is printed, not an alarm.", "3/C10"),
+  "C18": ("Lean 4 theorems over an exact Int-rank model of k_center_clustering and the view's per-cluster arg-min + rank-coded exact correspondence with both entry points",
+          "Proved for every n, k <= n, first < n and every distance/value table: centres distinct, valid, starting at first; each next centre is the first farthest non-centre; every observation goes to the first nearest centre, no cluster empty; per cluster the best is the first arg-min; best_indices is k distinct valid indices containing the global first arg-min; the code's assertions never fire; a tie-liberal spec implies the same conclusions.",
+          "Not modelled in Lean: search-space conversion (C19) and metric scaling (C12), checked per run by independent oracles; IEEE rounding of distances (ranks of the library's floats are the model input).", "3/C18"),
 }
 
 
